@@ -12,8 +12,8 @@
  and padding invariance; it is the hypothesis of C17_answer_is_own_partial).
  The suffix _partial marks exactly this: all schedules of the model, not of the OS. *)
 From Coq Require Import ZArith List.
-From TV Require gen.Consts.
-From TV Require Import model.Server proofs.ServerProofs proofs.ServerProgress.
+From TV Require gen.Consts gen.ServerIR.
+From TV Require Import model.ServerDen model.Server proofs.ServerProofs proofs.ServerProgress proofs.ServerTie.
 Import ListNotations.
 Open Scope Z_scope.
 
@@ -95,3 +95,16 @@ Proof. exact batch_size_bound. Qed.
 (* "the client turns the served reply back into the same policy vector": float32 words -> bytes -> words *)
 Theorem C17_bytes_roundtrip : forall ws, Forall is_word ws -> decode_bytes (encode_words ws) = Some ws.
 Proof. exact bytes_roundtrip. Qed.
+
+(* tie (T): the protocol IR regenerated from the current source of Server.worker_loop (with run_model),
+   Server.Evaluate, the queue factory and GRPCNetwork.evaluate (gen/ServerIR.v) has a denotation, and the queue
+   capacity, batch threshold, gather timeout and the pairing "result row i -> request i" used by model/Server.v
+   (hence by every theorem above) are the ones the source states *)
+Theorem C17_server_ir_denotes_model :
+  den ServerIR.server = Some (mkParams cap threshold gather_timeout_us ServerIR.IdxI) /\
+  pairing = ServerIR.IdxI /\ 1 <= threshold /\ threshold <= cap /\ 0 < gather_timeout_us.
+Proof. exact server_ir_denotes_model. Qed.
+
+(* the gather timeout the property text names ("trickles around the 1 ms gather timeout") *)
+Theorem C17_gather_timeout_is_1ms : gather_timeout_us = 1000.
+Proof. exact server_ir_gather_timeout_1ms. Qed.
